@@ -3046,7 +3046,7 @@ template< size_t L>
 {
    if ((mLength == 0) || (str.mLength == 0) || (str.mLength > mLength))
       return std::string::npos;
-   if ((pos == std::string::npos) || (pos + str.mLength > mLength))
+   if ((pos == std::string::npos) || (pos > mLength - str.mLength))
       pos = mLength - str.mLength;
    // have to add 1 in the assignment because of the decrement in the condition
    for (size_t idx = pos + 1; idx-- > 0; )
@@ -3064,7 +3064,7 @@ template< size_t L>
 {
    if ((mLength == 0) || str.empty() || (str.length() > mLength))
       return std::string::npos;
-   if ((pos == std::string::npos) || (pos + str.length() > mLength))
+   if ((pos == std::string::npos) || (pos > mLength - str.length()))
       pos = mLength - str.length();
    // have to add 1 in the assignment because of the decrement in the condition
    for (size_t idx = pos + 1; idx-- > 0; )
@@ -3089,7 +3089,7 @@ template< size_t L>
       count = str_len;
    if (count > mLength)
       return std::string::npos;
-   if ((pos == std::string::npos) || (pos + count > mLength))
+   if ((pos == std::string::npos) || (pos > mLength - count))
       pos = mLength - count;
    // have to add 1 in the assignment because of the decrement in the condition
    for (size_t idx = pos + 1; idx-- > 0; )
